@@ -41,8 +41,8 @@ HS = (
     _both("register", "h_register", ["console_register"], lp_unwind=34, timeout=900, bounded=NAMES) +
     _both("builtin", "h_builtin", ["console_echo", "console_unknown"], timeout=300) +
     _both("putchar", "h_putchar", ["console_putchar"], timeout=300) +
-    _both("eval_step", "h_eval_step", ["console_eval"], replace_calls=STUBS_RUN, unwindset=RUNLOOP, timeout=600,
-          bounded="injected text of at most 23 characters (any bytes); first invocation and one resumption after an arbitrary partial drain of the ring") +
+    _both("eval_step", "h_eval_step", ["console_eval"], replace_calls=STUBS_RUN, unwindset=RUNLOOP + ["console_eval.1:9"], timeout=600, cbmc_flags=["--object-bits", "12"],
+          bounded="injected text of at most 6 characters (any bytes), ring holding 0..15 unread bytes at any position; first invocation and one resumption after an arbitrary partial drain of the ring") +
     [H("eval_seq", F, "h_eval_seq", ["console_eval", "console_run", "console_init", "do_prompt"], defs=D + ["-DTEXT_LEN=%d" % TEXT_LEN],
        replace_calls=STUBS_EVAL, unwind=82, timeout=900,
        bounded="injected text of at most %d characters over {x, space, newline}; ring of the real size (16); commands exit at once" % TEXT_LEN,
